@@ -21,4 +21,5 @@ Exotic == [k : {"exotic"}, s : {"match", "async", "walrus", "decorator", "global
                                  "lambdadefault", "setcomp", "starargs", "dunder", "slicesassign", "ellipsis", "bytes", "complexnum", "genericann", "ctorcalls"},
            e : {"-"}, c : {"module"}]
 AllCells == Matrix \cup Calls \cup Methods \cup Exotic
+OneCell == {[k |-> "builtin", s |-> "sorted", e |-> "literal", c |-> "module"]}
 =============================================================================
